@@ -128,13 +128,15 @@ claim('C20',
 claim('C03',
       'TLA+ spec XlEval (sheet defaulting, ranges as row-major arrays, names) + XlSyntax rendering; TLC enumerates workbooks over '
       'three sheets and probe formulas; each workbook is built both by read_and_parse_dict and as an .xlsx (own writer) and the '
-      'probe evaluated; resolve_ranges compared with the spec\'s Resolve',
+      'probe evaluated; resolve_ranges compared with the spec\'s Resolve; every formula cell of the fixture workbooks evaluated by the '
+      'library under the local-consistency recorder and judged by TLC (Trace_Local)',
       'Exhaustive over a 3-sheet x 3x3 grid whose cells hold distinct powers of two (a sum reveals exactly which cells were read): '
       'every target cell x 4 $ spellings x qualified/unqualified x probe sheet, as a bare reference and inside arithmetic; all 36 '
       'rectangles x SUM/COUNTA x source/target sheets x $ spellings, dense and with all 15 sparse patterns of a 2x2 sub-block; '
       'blank reads; cross-sheet chains where qualified and unqualified references alternate and one cell is reached twice; 1xN and '
       'Nx1 strips (N up to 320) and a two-column block with long blank runs; columns AA..XFD; names bound to cells and to ranges, '
-      'used in formulas and as the argument of evaluate; resolve_ranges on 1920 rectangles. TLC checks the column-name bijection on '
+      'used in formulas and as the argument of evaluate; sheet names that are prefixes of one another; cells that come into being after '
+      'compilation inside a range (`late`); resolve_ranges on 1920 rectangles. TLC checks the column-name bijection on '
       '1..18278 and the rows x columns / no-duplicate shape of Resolve.',
       COMMON_NOTE + ' Also trusted: harness/xlsxwriter_min.py, harness/syntax.py (held to the spec by Trace_Parse/Trace_Formula). '
                     'Left open: reversed ranges, whole rows/columns, unions, names bound to formulas, evaluate(name of a range). Known finding F-C03-01.',
@@ -168,24 +170,29 @@ claim('C18',
 claim('C04',
       'TLA+ spec XlWorkbook (API-level state machine: inputs, stored values, evaluated set, mechanism switch); TLC checks NoStale / '
       'StoredInputs / GetIsStored / Deterministic / EvaluateFrame on all reachable states and shows the need_update and global-memo '
-      'design variants violate NoStale; every history of length 4 (thorough 5) is replayed step by step into the real model',
+      'design variants violate NoStale; every history of length 4 (thorough 5) is replayed step by step into the real model; random workbook histories validated by TLC (Trace_Local); thorough: every evaluation of the repository\'s own tests validated likewise',
       'All interleavings of set_cell_value (by address and by defined name), evaluate and get_cell_value up to length 4 (quick) / 5 '
-      '(thorough) on five model shapes (chain, diamond with a repeated reference, sum over a range with a formula member, named '
-      'input, cross-sheet pair): every history is a distinct TLC state carrying the expected response and the expected stored value '
+      '(thorough) on eleven model shapes (chain, diamond with a repeated reference, sum over a range with a formula member, named '
+      'input, cross-sheet pair, overlapping ranges, twin formula texts, lazy arguments, names on quoted sheets, a name for a formula, and '
+      '`sparse`: ranges reaching beyond the stored cells, a never-stored input, a stored -1 set to -2, a text set to another letter case): every history is a distinct TLC state carrying the expected response and the expected stored value '
       'of every cell after every step; the real model is driven along each history and compared after every step (and built from an '
       '.xlsx for a sample). Evaluate in the spec is defined by the caching mechanism a constant selects, the property against the '
-      'big-step value on the current inputs; TLC proves the shipped mechanism satisfies it to depth 6 and the two caching variants do not.',
+      'big-step value on the current inputs; TLC proves the shipped mechanism satisfies it to depth 6 and the two caching variants do not.' +
+      ' Random workbook driver (checks/wbdrive.py): seeded multi-sheet workbooks (quoted and prefix sheet names, every scalar kind, formulas over the modelled subset, names, repeated formula texts) under random histories of evaluate / set / persist+restore / deepcopy / extract; every evaluation is judged by TLC (Trace_Local) against Eval over the dependency closure with the constants as the driver set them.',
       COMMON_NOTE + ' Left open: get of a never-evaluated formula cell, setting a formula cell, stored values of lazily skipped cells.',
       '§7 C04')
 claim('C05',
       'same XlWorkbook spec with two evaluators: TLC checks Deterministic / Idempotent / EvaluateFrame / Footprint and shows the '
       'leaky-memo and global-memo variants violate them; every schedule of length 4 (thorough 5) replayed; model snapshot before/after '
-      'each evaluation; process footprint measured in a fresh subprocess',
+      'each evaluation and after evaluate() of things that are not cells; the schedules again with evaluator 2 holding its own function '
+      'table (one response per content, cell and evaluator); process footprint measured in a fresh subprocess; random workbook '
+      'histories validated by TLC (Trace_Local)',
       'All permutations-with-repetition of Evaluate(evaluator in {1,2}, cell) of length 4/5 on the five shapes, plus all length-3 '
       'interleavings with Set: responses compared with the spec (hence with each other), constants / formula texts / names / cell '
       'set compared before and after every evaluation. Footprint: gc-object and tracemalloc growth between the 1st and the 2nd batch '
       'of identical evaluations (3000 / 20000 per batch) in a fresh subprocess, with a single evaluator and with a fresh Evaluator '
-      'every 50 calls; the spec bounds what an evaluation may leave behind (Footprint), the harness bounds the measured growth.',
+      'every 50 calls; the spec bounds what an evaluation may leave behind (Footprint), the harness bounds the measured growth.' +
+      ' Random workbook driver (checks/wbdrive.py): seeded multi-sheet workbooks (quoted and prefix sheet names, every scalar kind, formulas over the modelled subset, names, repeated formula texts) under random histories of evaluate / set / persist+restore / deepcopy / extract; every evaluation is judged by TLC (Trace_Local) against Eval over the dependency closure with the constants as the driver set them.',
       COMMON_NOTE + ' The footprint sub-clause uses quantities TLA+ has no notion of (gc objects, traced bytes), measured by the harness; '
                     'slack 200 objects / 128 KiB per batch. Left open: volatile functions, threads.',
       '§7 C05')
@@ -194,13 +201,18 @@ claim('C06',
       'TLA+ spec XlEvalMachine (small-step walk of the dependency graph: frame stack, per-context memo, cycle check selected by a '
       'constant); TLC checks termination (liveness under fairness), stack/step bounds, cycle-iff-cyclic, no-false-cycle and refinement '
       'of the big-step value on every digraph, and rejects the per-context and visited-set variants; every final state is replayed '
-      'in a time/memory-limited evaluation; chains and seeded graphs are validated by TLC (Trace_C06)',
+      'in a time/memory-limited evaluation; chains and seeded graphs are validated by TLC (Trace_C06); the machine is shown (TLC) to '
+      'refine the path skeleton XlEvalPath, whose invariant is proved inductive for all graphs on 8 cells by Apalache',
       'Every digraph on 3 cells (quick; 4 cells sampled in thorough) with up to two possibly repeated references per cell, at most one '
       'failing cell, every entry point: 26 364 behaviours, each deterministic; the outcome class (value / cycle report / other '
       'failure) and the value of every behaviour are compared with the real evaluator on formulas that mention cells singly or through '
       'ranges. The graph-theoretic statement (reachable cycle <=> cycle report, unless a failing cell is reachable too) is checked by '
       'TLC both on the machine and, independently of it, on recorded outcomes of seeded graphs on 4-10 cells. Chains of depth up to '
-      '200 (thorough 512) with valid, unknown-function and Python-error leaves bound message size (400k+400) and CPU time (5k^2+2000 ms).',
+      '200 (thorough 512) with valid, unknown-function and Python-error leaves bound message size (400k+400) and CPU time (5k^2+2000 ms). '
+      'Dormant cycles: references guarded by a switch cell through IF - evaluate, set the switch, evaluate, and back - on 1500 graphs; '
+      'every REGISTERED function with a lazily evaluated parameter is scanned: if a spy in the referenced cell fired, the cycle through '
+      'that argument must be reported. Apalache: the stack of the path skeleton is a simple path of the reference graph (depth <= number '
+      'of cells) and a cycle report carries a closed walk, inductively, for all 2^64 graphs on 8 cells; the variant without the path check is rejected.',
       COMMON_NOTE + ' Time is measured (process CPU time), not modelled. Left open: wording/class of exceptions beyond "mentions a cycle", '
                     'whether a very deep acyclic chain yields its value or a bounded failure.',
       '§7 C06')
@@ -264,22 +276,24 @@ claim('C10',
 claim('C12',
       'XlWorkbook spec with a Persist step closing each history: the entry carries the stored values and the fresh value of every cell; '
       'TLC enumerates all histories; each is replayed, persisted (.json/.gz/.gzip, also upper case; also before compilation), restored '
-      'and compared',
-      'Every history of up to 2 (thorough 3) Set / Evaluate steps followed by Persist on 4 shapes, one of which holds every value kind '
+      'and compared; random workbook histories with persist+restore steps validated by TLC (Trace_Local)',
+      'Every history of up to 2 (thorough 3) Set / Evaluate steps followed by Persist on 8 shapes (incl. `ghost`: references to never-stored cells and to a sheet the workbook lacks, `wide`: a range across the Z/AA column boundary), one of which holds every value kind '
       '(int, fraction, non-ASCII text, 1e300, 5e-324, boolean, date with a time, formulas yielding an error, a text and a logical, a '
       'defined name, a range, two sheets). The restored model is compared with the original on cells (address, value, formula text), '
       'formulae, defined names and range matrices, with the stored values of the specification state, and every cell is evaluated '
-      'in both models against the fresh value the specification computes; the file encoding must follow the extension.',
+      'in both models against the fresh value the specification computes; the file encoding must follow the extension.' +
+      ' Random workbook driver (checks/wbdrive.py): seeded multi-sheet workbooks (quoted and prefix sheet names, every scalar kind, formulas over the modelled subset, names, repeated formula texts) under random histories of evaluate / set / persist+restore / deepcopy / extract; every evaluation is judged by TLC (Trace_Local) against Eval over the dependency closure with the constants as the driver set them.',
       COMMON_NOTE + ' Left open: identity of token/uuid objects, the JSON text itself.',
       '§7 C12')
 claim('C13',
       'XlWorkbook spec with an Extract(focus) step: Closure (through references, ranges and names, with its laws checked by TLC) and '
       'the fresh values of the focus before and after input changes; TLC enumerates every non-empty focus subset after every short '
-      'history; each is replayed through ModelCompiler.extract',
+      'history; each is replayed through ModelCompiler.extract; random workbook histories with extract steps validated by TLC (Trace_Local)',
       '6 acyclic shapes x every history of <= 1 (thorough 2) Set / Evaluate steps x EVERY non-empty subset of cells and names as '
       'focus (12.5k cases quick): the extract must contain the closure, leave the original (constants, formulas, names, stored values) '
       'unchanged, and evaluate every focused cell and name to the fresh value in both models - again after each input of the closure '
-      'is set to another value in both. Closure is shown extensive, idempotent and reference-closed by TLC.',
+      'is set to another value in both. Closure is shown extensive, idempotent and reference-closed by TLC. Shapes incl. `ghost` and `wide`.' +
+      ' Random workbook driver (checks/wbdrive.py): seeded multi-sheet workbooks (quoted and prefix sheet names, every scalar kind, formulas over the modelled subset, names, repeated formula texts) under random histories of evaluate / set / persist+restore / deepcopy / extract; every evaluation is judged by TLC (Trace_Local) against Eval over the dependency closure with the constants as the driver set them.',
       COMMON_NOTE + ' Left open: extra cells in the extract, its formulae/ranges bookkeeping beyond what evaluation needs.',
       '§7 C13')
 
